@@ -11,6 +11,7 @@ import (
 	"errors"
 	"fmt"
 	"os"
+	"path/filepath"
 	"runtime"
 	"sort"
 	"strings"
@@ -24,6 +25,7 @@ import (
 	"verif/drivers/fakedb"
 	"verif/drivers/fakedial"
 	"verif/mc"
+	"verif/racelog"
 	"verif/sched"
 )
 
@@ -409,7 +411,7 @@ func threadPrograms(tier string) (single []string, double []string) {
 	return
 }
 
-func programs(tier string) []Program {
+func programs(tier string, race bool) []Program {
 	single, double := threadPrograms(tier)
 	var ps []Program
 	seen := map[string]bool{}
@@ -430,6 +432,13 @@ func programs(tier string) []Program {
 	b2 := 2
 	if tier == "thorough" {
 		b2 = 4
+	}
+	if race {
+		// the race build is ~10x slower: one preemption less, same programs
+		b2 = 1
+		if tier == "thorough" {
+			b2 = 2
+		}
 	}
 	for i, a := range all {
 		for _, b := range all[i:] {
@@ -452,6 +461,13 @@ func programs(tier string) []Program {
 		three = append(append([]string{}, single...), "XS", "XR", "RX", "XC")
 		b3 = 3
 	}
+	if race {
+		three = single
+		b3 = 1
+		if tier == "thorough" {
+			b3 = 2
+		}
+	}
 	for i, a := range three {
 		for j, b := range three[i:] {
 			for _, c := range three[i+j:] {
@@ -466,7 +482,7 @@ func programs(tier string) []Program {
 			}
 		}
 	}
-	if tier == "thorough" {
+	if tier == "thorough" && !race {
 		four := []string{"X", "S", "T", "R", "C"}
 		for i, a := range four {
 			for j, b := range four[i:] {
@@ -495,7 +511,11 @@ func main() {
 		fmt.Fprintln(os.Stderr, "HARNESS-ERROR: binary built without the instrumentation overlay")
 		os.Exit(3)
 	}
-	runtime.GOMAXPROCS(2)
+	if sched.RaceBuild {
+		runtime.GOMAXPROCS(1)
+	} else {
+		runtime.GOMAXPROCS(2)
+	}
 	if args.Replay != "" {
 		var rp Replay
 		if err := mc.LoadReplay(args.Replay, &rp); err != nil {
@@ -532,7 +552,7 @@ func main() {
 		return
 	}
 
-	ps := programs(args.Tier)
+	ps := programs(args.Tier, sched.RaceBuild)
 	if only := os.Getenv("VERIF_C14_ONLY"); only != "" {
 		var f []Program
 		for _, p := range ps {
@@ -554,6 +574,22 @@ func main() {
 	}
 	os.Setenv("VERIF_DEADLINE", fmt.Sprint(time.Now().Add(budget).Unix()))
 	m := mc.RunShards(run, nproc)
+	raceCov := map[string]interface{}{}
+	if raceBin := os.Getenv("VERIF_RACE_BIN"); raceBin != "" {
+		os.Setenv("VERIF_DEADLINE", fmt.Sprint(time.Now().Add(budget).Unix()))
+		logdir := filepath.Join(mc.Root(), ".work", fmt.Sprintf("race-c14-%d", os.Getpid()))
+		os.MkdirAll(logdir, 0o755)
+		defer os.RemoveAll(logdir)
+		rm := mc.RunShardsBin(run, nproc, raceBin, []string{"GORACE=halt_on_error=0 exitcode=0 log_path=" + filepath.Join(logdir, "race"), "VERIF_RACE_LOG=" + filepath.Join(logdir, "race")})
+		raceCov["race_build_executions"] = rm.Counters["executions"]
+		raceCov["race_reports_total"] = rm.Counters["race_reports"]
+		raceCov["race_pairs_in_gorm"] = rm.Sets["race_pairs"]
+		raceCov["race_reports_outside_gorm_ignored"] = rm.Counters["race_reports_ignored"]
+		raceCov["race_build_programs_capped"] = rm.Counters["capped_programs"]
+		m.Counters["capped_programs"] += rm.Counters["capped_programs"]
+	} else {
+		run.HarnessError("race build missing (VERIF_RACE_BIN not set)")
+	}
 	exhaustive := m.Counters["capped_programs"] == 0
 	if m.Counters["nv_waiter_blocked"] == 0 || m.Counters["nv_reset_while_inprogress"] == 0 {
 		if run.NumViolations() == 0 {
@@ -562,7 +598,11 @@ func main() {
 	}
 	run.Assume("database/sql and the fake driver are atomic steps; scheduling points at every sync.RWMutex/sync.Map/channel/go operation of the instrumented gorm files (statement.go's per-statement Settings map excluded)")
 	run.Assume("threads use the same statement texts on their own keys; 2 threads unbounded, 3-4 threads preemption-bounded; faults: Prepare failure, persistent ErrBadConn per logical call")
-	run.Finish(map[string]interface{}{
+	cov := map[string]interface{}{}
+	for k, v := range raceCov {
+		cov[k] = v
+	}
+	for k, v := range map[string]interface{}{
 		"states":                        m.Counters["executions"],
 		"transitions":                   m.Counters["points"],
 		"traces_validated_against_impl": m.Counters["executions"],
@@ -581,7 +621,10 @@ func main() {
 		"executions_with_preemption":              m.Counters["nv_preempted"],
 		"replay_divergences":                      m.Counters["divergences"],
 		"deadlocks":                               m.Counters["deadlocks"],
-	})
+	} {
+		cov[k] = v
+	}
+	run.Finish(cov)
 }
 
 func child(run *mc.Run, args mc.Args, ps []Program) {
@@ -593,6 +636,10 @@ func child(run *mc.Run, args mc.Args, ps []Program) {
 		deadline = time.Unix(u, 0)
 	}
 	outcomes := map[string]bool{}
+	var rl *racelog.Log
+	if sched.RaceBuild {
+		rl = racelog.New(os.Getenv("VERIF_RACE_LOG"))
+	}
 	const sub = 4 // each program's tree is split into `sub` subtree shards
 	item := 0
 	for pi, p := range ps {
@@ -609,6 +656,27 @@ func child(run *mc.Run, args mc.Args, ps []Program) {
 				fp := fingerprint(o)
 				if !outcomes[fp] && len(outcomes) < 20000 {
 					outcomes[fp] = true
+				}
+				if rl != nil {
+					for _, rep := range rl.Drain() {
+						out.Counters["race_reports"]++
+						pair, ok := rep.Pair()
+						if !ok {
+							out.Counters["race_reports_ignored"]++
+							continue
+						}
+						seen := false
+						for _, q := range out.Sets["race_pairs"] {
+							if q == pair {
+								seen = true
+							}
+						}
+						if !seen {
+							out.Sets["race_pairs"] = append(out.Sets["race_pairs"], pair)
+						}
+						run.Violation([]string{"race:" + pair}, "data-race\n"+p.String()+"\n"+pair+"\n"+rep.Text,
+							Replay{Program: p, Choices: x.ChoiceInts(), Trace: x.Trace()})
+					}
 				}
 				if o.sch.SawBlocked[sched.OpRecv] {
 					out.Counters["nv_waiter_blocked"]++
